@@ -21,3 +21,7 @@ CHECKS["C01"] = dict(
     text="Query semantics vs a reference evaluator: for each (document shape, path template) shard the real parser + Processor.get_nodes(mustexist=True) run symbolically on path text with symbolic indexes/bounds/terms and documents with symbolic integer leaves; the result sequence must equal the README-derived model's coordinates (parent identity, key/index, order, nothing extra or missing), in dot and slash notation, and exists() / optional-match must agree. The model is validated at every run against the (document, path, values) triples of tests/test_processor.py.",
     note="Only combinations the README defines are asserted (the model raises Undefined otherwise - listed in evidence.outside_claim). Templates: harness/c01.py (47); shapes: vf/docs.py; quick = 30 pairs, thorough = applicability product (~400 queries).")
 del NA["C01"]
+CHECKS["C02"] = dict(
+    text="Result coordinates: for the C01 shape x template shards plus keyword templates (has_child, max/min, unique/distinct, parent) and a pool of keys holding every escapable character, every non-virtual result of the real Processor.get_nodes must satisfy parent[parentref] is node, an ancestry chain that walks from the document root to the parent, and a reported path that - re-queried on the same document in dot and in slash notation - resolves to exactly that node once. Oracle = the document itself.",
+    note="Virtual results (slices, collectors, name()) are skipped as the property says; anchored nodes are not reachable symbolically (C-constructed scalars) and are covered by C07's pooled shards.")
+del NA["C02"]
